@@ -401,6 +401,21 @@ def sd7(F, R):
         if len(data_cmds) != 2:
             R.bad(fn, "data-cmds", "expected two data commands", kind="anchor-missing")
             continue
+        # an initialised card is never refused by the driver itself: for every card kind, each way through the function passes a
+        # data command (a refusal of its own - a range check on the address, say - turns valid transfers into errors)
+        from .ev import specialise_enum as _spec
+        _vs = F.variants("sdcard::CardType")
+        _is_opt = lambda x: x[0] == "place" and x[2] and x[2][-1] == "card_type"
+        _is_kind = lambda x: (x[0] == "place" and "card_type" in x[2] and "as:Some" in x[2] and x[2][-1] == "0") or (x[0] == "var" and isinstance(x[1], int) and fn.locals[x[1]]["ty"].endswith("CardType"))
+        for kind in _vs:
+            _cut = _spec(fn, _is_opt, ["None", "Some"], "Some") + _spec(fn, _is_kind, _vs, kind)
+            # (failures of the calls made on the way - the busy wait, ACMD23 - are the card's refusals, not the driver's)
+            from .ev import failure_edges as _fe
+            for cb_, ct_ in fn.calls():
+                if not is_log_call(ct_):
+                    _cut += _fe(fn, cb_)
+            _around = fn.reach([0], cut_edges=_cut, cut_blocks=[b for b, t in data_cmds])
+            R.require(not any(fn.term(rb)["k"] == "Return" for rb in _around), fn, "no-own-refusal:" + kind, "%s can return without sending a data command although the card is initialised (%s): a transfer is refused by the driver itself" % (name, kind), fn.loc(0))
         vars_ = set()
         helper_calls = []
         # general form: the address *expression* of each data command, with every local in it replaced by the definitions
@@ -1095,6 +1110,41 @@ def sd14(F, R):
     if "SD2" in pairs:
         ok, _ = guarded(f, pairs["SD2"][1], lambda g: g_cmp("Eq", True, None, lambda z: z[:2] == ("c", 0xAA))(g) or (g.kind == "value" and g.value == 0xAA))
         R.require(ok, f, "sd2-iff-echo", "SD2 must be chosen only when the CMD8 echo byte is 0xAA", f.loc(pairs["SD2"][1]))
+    # every place that sets the kind: SD1 only on CMD8's illegal-command answer, SD2 only on the 0xAA echo (a later
+    # "downgrade" - e.g. in the else of the OCR test - reports a version-2 card as version 1)
+    def _is_const5(z):
+        z = strip_refs(z)
+        if z[:2] == ("c", 5):
+            return True
+        return z[0] == "bin" and z[1] in ("BitOr", "Add") and {strip_refs(z[2])[:2], strip_refs(z[3])[:2]} == {("c", 4), ("c", 1)}
+    kind_locals = set()
+    for b_, i_, s_ in f.stmts():
+        if s_["k"] == "Assign" and s_["p"]["proj"] and [e[2] for e in s_["p"]["proj"] if e[0] == "field"][-1:] == ["card_type"]:
+            for q in subterms(f.term_of_rvalue(s_["rv"], b_)):
+                if q[0] == "var" and isinstance(q[1], int) and f.locals[q[1]]["ty"].endswith("CardType"):
+                    kind_locals.add(q[1])
+    for _k in range(4):        # temporaries the kind is chosen in before it is assigned (`card_type = if c { A } else { B }`)
+        for b_, i_, s_ in f.stmts():
+            if s_["k"] == "Assign" and not s_["p"]["proj"] and s_["p"]["l"] in kind_locals and s_["rv"]["k"] == "Use" and s_["rv"]["op"].get("k") in ("copy", "move") and not s_["rv"]["op"]["p"]["proj"]:
+                kind_locals.add(s_["rv"]["op"]["p"]["l"])
+    R.require(bool(kind_locals), f, "kind-stored", "acquire does not store the identified kind in self.card_type from a local", f.loc(0))
+    kind_sets = {kd: [(b_, i_) for b_, i_, s_ in f.stmts() if s_["k"] == "Assign" and not s_["p"]["proj"] and s_["p"]["l"] in kind_locals and (lambda v_: v_[0] == "agg" and v_[2] and v_[2].endswith("CardType::" + kd))(strip_refs(f.term_of_rvalue(s_["rv"], b_)))] for kd in ("SD1", "SD2")}
+    is_cmd8_answer = lambda a: has_sub(a, lambda q: q[0] == "call" and q[1] and path_matches(q[1], "SdCardInner::card_command"))
+    bad1 = [(b_, i_) for b_, i_ in kind_sets["SD1"] if not guarded(f, b_, g_cmp("Eq", True, is_cmd8_answer, _is_const5))[0]]
+    R.require(bool(kind_sets["SD1"]) and not bad1, f, "sd1-only-on-illegal", "the card kind is set to SD1 at a place that is not behind CMD8's ILLEGAL_COMMAND|IDLE answer", f.loc(*bad1[0]) if bad1 else f.loc(0))
+    bad2 = [(b_, i_) for b_, i_ in kind_sets["SD2"] if not guarded(f, b_, lambda g: g_cmp("Eq", True, None, lambda z: z[:2] == ("c", 0xAA))(g) or (g.kind == "value" and g.value == 0xAA))[0]]
+    R.require(bool(kind_sets["SD2"]) and not bad2, f, "sd2-only-on-echo", "the card kind is set to SD2 at a place that is not behind the 0xAA echo of CMD8", f.loc(*bad2[0]) if bad2 else f.loc(0))
+    # with use_crc set there is no way to ACMD41 around CMD59 (no second condition - card version, retries - on enabling the CRC)
+    crc_off_edges = [(gb, gi) for (gb, gi, g) in all_guards(f) if g.kind == "bool" and last_field(g.term) == "use_crc" and g.truth is False]
+    around59 = f.reach([0], cut_edges=crc_off_edges, cut_blocks=[byname["CMD59"][0]])
+    R.require(byname["ACMD41"][0] not in around59, f, "cmd59-whenever-use_crc", "with use_crc set the handshake can reach ACMD41 without having sent CMD59 (the CRC is enabled only under a further condition): the driver then checks CRCs the card does not produce", f.loc(byname["CMD59"][0]))
+    # the four bytes behind R1 of CMD8 (R7) and CMD58 (R3) are clocked in before they are looked at / before the next command
+    tb = [b_ for b_, t_ in f.calls() if call_matches(t_, ("SdCardInner::transfer_bytes", "SdCardInner::read_bytes"))]
+    sdhc_sets = [b_ for b_, i_, s_ in f.stmts() if s_["k"] == "Assign" and (lambda v_: v_[0] == "agg" and v_[2] and v_[2].endswith("CardType::SDHC"))(strip_refs(f.term_of_rvalue(s_["rv"], b_)))]
+    skip58 = [b_ for b_ in sdhc_sets if b_ in f.reach_after(byname["CMD58"][0], cut_blocks=tb)]
+    R.require(bool(sdhc_sets) and not skip58, f, "ocr-read-before-use", "the OCR test after CMD58 can be reached without the four OCR bytes having been read from the card (they stay on the bus and the buffer holds its 0xFF filler)", f.loc(byname["CMD58"][0]))
+    skip8 = [b_ for b_, i_ in kind_sets["SD2"] if b_ in f.reach_after(byname["CMD8"][0], cut_blocks=tb)]
+    R.require(not skip8, f, "r7-read-before-use", "the CMD8 echo test can be reached without the four R7 bytes having been read from the card", f.loc(byname["CMD8"][0]))
     a41 = byname["ACMD41"]
     R.require(a41[3].endswith("card_acmd") and strip_refs(a41[2])[0] in ("var", "place"), f, "acmd41-via-acmd", "ACMD41 must be sent with card_acmd and the per-kind argument", f.loc(a41[0]))
     from .ev import specialise_enum
